@@ -47,6 +47,13 @@ try:
     if not os.path.exists('/tmp/optshim/sksparse'):
         shutil.copytree(os.path.join(verif, 'shims', 'sksparse'), '/tmp/optshim/sksparse')
 
+    # the authors were told to assert that their own worktree is the one imported; that path does not exist here
+    txt = open(demo).read()
+    txt2 = re.sub(r'(?m)^(\s*)assert [^\n]*__file__[^\n]*startswith\([^\n]*$', r'\1pass  # (author worktree path assertion removed by seed_eval)', txt)
+    if txt2 != txt:
+        demo = os.path.join(wt, '_seed_demo.py')
+        open(demo, 'w').write(txt2)
+
     def run_demo():
         r = subprocess.run(['/venv/bin/python', demo], capture_output=True, text=True, env=env, cwd=wt, timeout=1800)
         return r.returncode, (r.stdout + r.stderr).strip().splitlines()[-3:]
